@@ -91,37 +91,116 @@ def correspondence(ctx):
     ctx.sample({"request": lines[0][:100], "answer": ans[0]})
 
 
+def check_one(ub, ref, pol, az, s):
+    """the three clauses of the property against the calculator's CURRENT UB; returns a description of the failure or None"""
+    UB = np.asarray(ub.UB, float)
+    try:
+        v = np.array(ub.get_hkl_from_polar_transform(ref, pol, az), float)
+        w, w2 = UB @ np.array(ref), UB @ v
+        if abs(np.linalg.norm(w2) - np.linalg.norm(w)) > 1e-9 * np.linalg.norm(w):
+            return f"|UB.v'| = {np.linalg.norm(w2)} differs from |UB.v| = {np.linalg.norm(w)}"
+        ang = degrees(math.acos(max(-1, min(1, w @ w2 / (np.linalg.norm(w) * np.linalg.norm(w2))))))
+        if abs(ang - pol) > 1e-6:
+            return f"the offset vector makes {ang} deg with the reference instead of {pol}"
+        r = ub.get_polar_transform_from_hkl(tuple(float(x) * s for x in v), ref)
+        if abs(r[0] - pol) > 1e-6:
+            return f"inverse returned polar angle {r[0]} instead of {pol}"
+        if math.isnan(r[1]) or angdiff(r[1], az) > 1e-5:
+            return f"inverse returned azimuth {r[1]} instead of {az % 360} (mod 360)"
+        if abs(r[2] - s) > 1e-9 * (1 + s):
+            return f"inverse returned scale {r[2]} instead of {s}"
+    except Exception as e:  # noqa
+        return f"raised {type(e).__name__}: {str(e)[:80]}"
+    return None
+
+
+CHANGES = ["set_lattice", "set_lattice_named", "set_u", "set_ub", "set_miscut", "calc_ub", "refine_ub-lattice", "refine_ub-u", "refine_ub-both",
+           "fit_ub-lattice", "vectors", "none"]
+
+
+def change_state(rng, ub, change):
+    """one public state change on a calculator that has already been used"""
+    from diffcalc.hkl.geometry import Position
+    pos = Position(0, 35, 5, 12, 40, 20)
+    if change == "set_lattice":
+        ub.set_lattice("y", *rng.choice([(5.3, 4.4, 7.1, 85, 99, 93), (2.2,), (3.0, 4.5), (3.1, 4.2, 5.3), (4.0, 5.0, 6.0, 104.0)]))
+    elif change == "set_lattice_named":
+        ub.set_lattice("y", *rng.choice([("Hexagonal", 3.3, 5.6), ("Cubic", 2.7), ("Rhombohedral", 4.0, 70.0), ("Tetragonal", 3.5, 6.1)]))
+    elif change == "set_u":
+        ub.set_u(rot_from_rotvec([rng.uniform(-2, 2) for _ in range(3)]))
+    elif change == "set_ub":
+        ub.set_ub(rot_from_rotvec([rng.uniform(-2, 2) for _ in range(3)]) @ np.asarray(ub.crystal.B))
+    elif change == "set_miscut":
+        ub.set_miscut((0.3, 1.0, -0.2), rng.uniform(1, 20), rng.random() < 0.5)
+    elif change == "calc_ub":
+        B = np.asarray(ub.crystal.B, float); U0 = rot_from_rotvec([rng.uniform(-2, 2) for _ in range(3)])
+        for h in ((1, 0, 0), (0, 1, 1)):
+            ub.add_orientation(h, tuple(float(x) for x in U0 @ B @ np.array(h, float)))
+        ub.calc_ub()
+    elif change.startswith("refine_ub"):
+        ub.refine_ub((1, 0, 1), pos, 1.0, change != "refine_ub-u", change != "refine_ub-lattice")
+    elif change == "fit_ub-lattice":
+        from diffcalc.ub.calc import UBCalculation
+        from diffcalc.hkl.calc import HklCalculation
+        from diffcalc.hkl.constraints import Constraints
+        from props.c15 import is_angle
+        system, params = ub.crystal.get_lattice_params()
+        true = UBCalculation("true")
+        true.set_lattice("t", system, *[p if is_angle(system, i) else p * 1.02 for i, p in enumerate(params)])
+        true.set_u(np.asarray(ub.U, float)); true.n_hkl = (1, 0.2, 0.1)
+        hc = HklCalculation(true, Constraints({"qaz": 90, "alpha": 5, "mu": 3}))
+        tags = []
+        for h in ((1, 0, 0), (0, 1, 0), (0, 0, 1), (1, 1, 0), (0, 1, 1), (1, 0, 1), (1, 1, 1), (-1, 1, 0)):
+            try:
+                p = hc.get_position(*h, 1.0)[0][0]
+            except Exception:  # noqa
+                continue
+            ub.add_reflection(h, p, 12.39842, f"f{len(tags)}"); tags.append(f"f{len(tags)}")
+        ub.fit_ub(tags, True, False)
+    elif change == "vectors":
+        ub.n_hkl = (0.0, 1.0, 1.0); ub.surf_nphi = (1.0, 0.0, 0.2)
+
+
 def oracle(ctx, widen=1):
     n = ctx.scale(400, 40000) * widen
     kinds = set()
     for _ in range(n):
         ub, ref, pol, az, s, k = gen_case(ctx.rng)
         kinds.add(k)
-        UB = np.asarray(ub.UB, float)
-        bad = None
-        try:
-            v = np.array(ub.get_hkl_from_polar_transform(ref, pol, az), float)
-            w, w2 = UB @ np.array(ref), UB @ v
-            if abs(np.linalg.norm(w2) - np.linalg.norm(w)) > 1e-9 * np.linalg.norm(w):
-                bad = f"|UB.v'| = {np.linalg.norm(w2)} differs from |UB.v| = {np.linalg.norm(w)}"
-            else:
-                ang = degrees(math.acos(max(-1, min(1, w @ w2 / (np.linalg.norm(w) * np.linalg.norm(w2))))))
-                if abs(ang - pol) > 1e-6:
-                    bad = f"the offset vector makes {ang} deg with the reference instead of {pol}"
-            if not bad:
-                r = ub.get_polar_transform_from_hkl(tuple(float(x) * s for x in v), ref)
-                if abs(r[0] - pol) > 1e-6:
-                    bad = f"inverse returned polar angle {r[0]} instead of {pol}"
-                elif math.isnan(r[1]) or angdiff(r[1], az) > 1e-5:
-                    bad = f"inverse returned azimuth {r[1]} instead of {az % 360} (mod 360)"
-                elif abs(r[2] - s) > 1e-9 * (1 + s):
-                    bad = f"inverse returned scale {r[2]} instead of {s}"
-        except Exception as e:  # noqa
-            bad = f"raised {type(e).__name__}: {str(e)[:80]}"
+        bad = check_one(ub, ref, pol, az, s)
         if bad:
             ctx.violation(f"reference {tuple(round(x, 4) for x in ref)} pol={pol} az={az} scale={s} lattice {len(ub.crystal.get_lattice_params()[1])}-parameter: {bad}",
-                          {"ref": list(ref), "pol": pol, "az": az, "s": s, "UB": UB.tolist()}, {"kind": "polar-roundtrip", "what": bad.split(" ")[0]})
+                          {"ref": list(ref), "pol": pol, "az": az, "s": s, "UB": np.asarray(ub.UB, float).tolist()}, {"kind": "polar-roundtrip", "what": bad.split(" ")[0]})
     ctx.stream("oracle:polar-roundtrip", n, len(kinds))
+    # the same calculator object, already used for both transforms, then changed through the public API: the clauses
+    # are stated about the calculator's UB, so they must hold for the UB it has NOW
+    nseq = ctx.scale(150, 8000) * widen
+    kinds2 = set()
+    for _ in range(nseq):
+        ub, ref, pol, az, s, k = gen_case(ctx.rng)
+        history = []
+        bad = check_one(ub, ref, pol, az, s)
+        for step in range(ctx.rng.randint(1, 3)):
+            if bad:
+                break
+            change = ctx.rng.choice(CHANGES)
+            try:
+                with quiet():
+                    change_state(ctx.rng, ub, change)
+            except Exception as e:  # noqa
+                history.append(f"{change}!{type(e).__name__}")
+                continue            # a rejected change leaves the calculator as it was (C17); the clauses still apply
+            history.append(change)
+            kinds2.add((change, k[0]))
+            _, ref2, pol2, az2, s2, _ = gen_case(ctx.rng) if ctx.rng.random() < 0.5 else (None, ref, pol, az, s, None)
+            if np.linalg.norm(np.asarray(ub.UB, float) @ np.array(ref2)) < 1e-6:
+                continue
+            bad = check_one(ub, ref2, pol2, az2, s2)
+            if bad:
+                bad = f"after {' -> '.join(history)} on a calculator already used for both transforms, reference {tuple(round(x, 4) for x in ref2)} pol={pol2} az={az2}: {bad}"
+        if bad:
+            ctx.violation(bad, {"history": history, "ref": list(ref), "pol": pol, "az": az, "s": s}, {"kind": "polar-after-change", "change": history[-1] if history else "first-use"})
+    ctx.stream("oracle:after-state-change", nseq, len(kinds2))
 
 
 def replay(ctx, data):
